@@ -10,16 +10,16 @@ CHECKS = {
    "Held on the concurrent histories produced: revision uniqueness over responses and over batches observed at the storage boundary, real-time order of every (returned-before-called) pair, per-key monotonicity, header >= data.",
    "revisions of failed guarded writes are used only when the response determines them"),
  "C04": ("exploration", "online assertion at the storage boundary + deposit-conservation monitor on a verif hook + snapshot check of concurrent reads", "5 C04",
-   "Held on executions with delayed/out-of-order commits, injected definite storage errors, unknown outcomes (incl. faults on the retry loop's repair writes), future and negative expected revisions (also through etcd Txn): read revision never reached an unfinished write; every dealt revision resolved exactly once; concurrent lists are snapshots; probe write becomes readable.",
-   "faults are injected by a wrapper at the storage.KvStorage boundary; wedge verdict by conservation of notify deposits (hook), never by timeout"),
+   "Held on executions with delayed/out-of-order commits, injected definite storage errors, unknown outcomes (incl. faults on the retry loop's repair writes), future and negative expected revisions (also through etcd Txn), requests whose context is already cancelled: read revision never reached an unfinished write; every dealt revision resolved exactly once; concurrent lists are snapshots; probe write becomes readable; no execution ended with every client parked and no request returning (stall monitor).",
+   "faults are injected by a wrapper at the storage.KvStorage boundary; wedge verdict by conservation of notify deposits (hook); the stall monitor needs zero finished operations AND every client goroutine parked at an unchanged synchronisation point over 5 looks, slowness alone is inconclusive"),
  "C03": ("exploration", "differential run against an executable MVCC reference model over generated sequential histories", "5 C03",
-   "Held (apart from the recorded deletion-marker finding) on generated sequential histories with prefix-related key names and hostile values on single- and multi-partition engines: every Get/List/limited List/Count at every sampled reported revision equals the reference snapshot, before and after more writes and a compaction below.",
+   "Held (apart from the recorded deletion-marker finding) on generated sequential histories with prefix-related key names and hostile values on single- and multi-partition engines: every Get/List/limited List/Count at every sampled reported revision equals the reference snapshot, before and after more writes and a compaction below, and after a transient iterator error retried by the scanner.",
    "reads only at revisions the node reported and not below the compaction floor"),
  "C11": ("exploration", "lock-step differential run of generated operation sequences against a sorted-map reference, per engine and behind the metrics wrapper", "5 C11",
    "Held on generated batch/get/delete/iterate sequences on memkv, Badger and the TiKV mock, each also behind the production metrics wrapper with the real Prometheus client: all-or-nothing batches, conditions evaluated exactly and reported as failed conditions, iterators bounded, ordered and snapshot-consistent; concurrent readers do not disturb each other and concurrent conditional writers are atomic (exactly one put-if-absent wins, no CAS increment is lost).",
    "only the documented contract of pkg/storage/interface.go is demanded; TTL always 0; ops of one batch touch distinct keys"),
  "C08": ("exploration", "monitor over generated compaction/read sequences: floor=max(accepted), stored record and refusal of reads below it", "5 C08",
-   "Held on generated sequences of compaction requests (increasing, repeated, older, zero, above current) interleaved with writes: the stored record never dropped below the highest accepted revision and every List/ListByStream below it was refused, on the compacting node and on a second node over the same store; reads at/above it equal the reference snapshot.",
+   "Held on generated sequences of compaction requests (increasing, repeated, older, zero, above current) interleaved with writes: the stored record never dropped below the highest accepted revision and every List/ListByStream below it was refused, on the compacting node and on a second node over the same store, including streams spanning several 300-kv batches (no data before the refusal); reads at/above it equal the reference snapshot.",
    "only compactions that returned without error raise the monitor's floor"),
  "C10": ("exploration", "generated inputs with round-trip/order oracles on the real coder, real memkv iteration and Backend.List", "5 C10",
    "Held on generated keys/revisions/bounds over the documented alphabet: round trip, order preservation, index-first contiguity, exact enclosure of raw ranges and prefixes by the computed internal bounds.",
@@ -28,7 +28,7 @@ CHECKS = {
    "Held on generated sequential scripts executed in lock-step on memkv, Badger, TiKV mock, their metrics-wrapped variants, a TiKV mock pre-split into regions and a multi-partition memkv: identical outcomes, revisions, range results, compaction answers and watch events.",
    "error texts are not compared, only error vs response; TiKV is the in-process mock"),
  "C13": ("exploration", "controlled partitioning (GetPartitions override / pre-split mock regions) with differential comparison against the unpartitioned reference snapshot and stream-framing monitor", "5 C13",
-   "Held on generated histories under generated partitionings (borders on index records, inside one key's versions, at never-stored keys, shuffled): List, Count, whole-interval stream, per-advertised-partition streams and the etcd range stream each contain every qualifying key once with the right version; batches name the read revision; one terminator, last.",
+   "Held on generated histories under generated partitionings (borders on index records, inside one key's versions, at never-stored keys, shuffled): List, Count, whole-interval stream, per-advertised-partition streams and the etcd range stream each contain every qualifying key once with the right version; batches name the read revision; one terminator, last; a cleanly terminated stream after a transient iterator error (partition retried) still carries each key once.",
    "borders are the forms an engine splitting at existing keys can produce; TiKV regions are those of the mock cluster"),
  "C05": ("exploration", "event-stream monitor against acknowledged-write ground truth; interleavings placed by blocking verif hook points; overflow race placed at the removal hook", "5 C05",
    "Held on stress, hook-placed and overflow executions (counts in evidence): every accepted watch received a prefix of the matching acknowledged changes with exact payloads, strictly increasing, complete through an acknowledged sentinel while open; refusals only outside the cached window.",
@@ -38,12 +38,12 @@ CHECKS = {
    "events are delivered in revision order (C05), which makes the sentinel a logical completeness marker"),
  "C07": ("fault_enumeration", "enumeration of every compaction delete position x {fail one, die after} on identically rebuilt stores, differential reads against the reference model", "5 C07",
    "Every delete call position of every generated history's compaction was faulted (fail-one generic / fail-one failed-compare / compactor death + new backend / a client re-create placed right before every index-record removal); after each, all reads at revisions >= R, a second clean compaction, the same reads, model-chosen writes on every key and records outside the compaction ranges were compared with the reference. Concurrent writer/compactor variant sampled.",
-   "a compactor death is modelled as all later deletes failing plus a new backend over the same store; histories are sampled, positions within a history are exhaustive"),
+   "a compactor death is modelled as all later deletes failing plus a new backend over the same store; histories are sampled, positions within a history are exhaustive (counted across parallel workers on multi-partition engines)"),
  "C09": ("fault_enumeration", "enumeration of unknown-outcome faults over every write batch x {applied, not applied} (+ second-order faults on the repair write), convergence monitor on hook-observed quiescence", "5 C09",
-   "Every write batch position of every generated history was answered 'outcome unknown' in both variants, plus three second-order variants on the repair write; the client always got an error, later writes flowed, compaction stayed below the unresolved revision, and after hook-observed quiescence store and event stream converged to the storage-boundary ground truth.",
+   "Every write batch position of every generated history was answered 'outcome unknown' in both variants, plus three second-order variants on the repair write; the client always got an error, later writes flowed, compaction stayed below the unresolved revision, and after hook-observed quiescence store and event stream converged to the storage-boundary ground truth (event payloads included). Concurrent runs with paired unknown outcomes answered out of revision order and a continuous compactor sampled in every 4th history.",
    "unknown outcomes are injected at the storage.KvStorage boundary; retry intervals shortened through the verif hook"),
  "C19": ("exploration", "Go race detector over the concurrent workloads of the other checks (worker built with -race), reports deduplicated by innermost kubebrain function pair", "5 C19",
-   "No data race report with a kubebrain frame was produced while the concurrent workloads (writers, readers, watchers joining/leaving/overflowing, overflow with subscriber churn, compaction, async retry, lock candidates, follower taking over, leader/follower pair with the real revision syncer) ran under the race detector on memkv and Badger; counts of executions and report blocks in evidence.",
+   "No data race report with a kubebrain frame was produced while the concurrent workloads (writers, readers, watchers joining/leaving/overflowing, overflow with subscriber churn, catch-up from a small wrapping watch cache, compaction, async retry, lock candidates, follower taking over, leader/follower pair with the real revision syncer) ran under the race detector on memkv and Badger; counts of executions and report blocks in evidence.",
    "a race detector sees only executed interleavings; reports wholly inside the TiKV mock or the harness are listed, not counted"),
  "C14": ("exploration", "complete step-interleaving enumeration on memkv against a register model (lock-step) + porcupine linearizability check of recorded concurrent lock histories", "5 C14",
    "All interleavings of 2 and of 3 candidates x 2 acquire rounds, and of 2 candidates retrying a rejected write without a fresh Get, were executed on memkv through the real resourcelock.Interface and agreed with a compare-and-swap register model step by step; sampled interleavings on Badger, the TiKV mock and locks obtained from real backends; recorded concurrent histories are linearizable as a CAS register (porcupine).",
